@@ -57,10 +57,14 @@ func TestFVCKnownC12Stale(t *testing.T) {
 		t.Fatalf("set-up: client A did not get its own message: %q", got)
 	}
 
-	// client B never was redirected; it sends something that is not an encoding of any message list
-	for _, bad := range []string{"\x91", "\x91\x80"} {
-		if got := get("fiber_flash=" + bad); got != "" {
-			t.Fatalf("C12 violated: malformed cookie fiber_flash=%q yields messages %q (client A's flash message)", bad, got)
-		}
+	// client B never was redirected; it sends something that is not an encoding of any message list.
+	// \x91 (array of 1, truncated) is rejected by the decoder: no messages at all.
+	if got := get("fiber_flash=\x91"); got != "" {
+		t.Fatalf("C12 violated: malformed cookie fiber_flash=%q yields messages %q (client A's flash message)", "\x91", got)
+	}
+	// \x91\x80 (array of one EMPTY map) is accepted by the lenient decoder as one message without fields:
+	// whatever is delivered must come from the cookie, not from client A's request.
+	if got := get("fiber_flash=\x91\x80"); strings.Contains(got, "secret") || strings.Contains(got, "s3cr3t") {
+		t.Fatalf("C12 violated: cookie fiber_flash=%q yields %q (client A's flash message)", "\x91\x80", got)
 	}
 }
